@@ -145,6 +145,9 @@ def worker_main(argv):
         ctx.R = repo.load()
         oracle = load_oracle(prop)
         oracle.shard(ctx)
+        from . import gen
+        if gen.LONG[0]:
+            ctx.stratum('sentence of 120..300 tokens', gen.LONG[0])
     except Exception:
         import traceback
         status = 'crash'
@@ -255,6 +258,11 @@ def run_check(prop, tier, seed):
         if m['strata'].get(st, 0) < least:
             inconclusive.append('stratum %s seen %d times (< %d)'
                                 % (st, m['strata'].get(st, 0), least))
+    least = getattr(oracle, 'LONG_SENTENCES', 0)
+    if m['strata'].get('sentence of 120..300 tokens', 0) < least:
+        inconclusive.append('only %d sentences of 120..300 tokens (< %d)'
+                            % (m['strata'].get('sentence of 120..300 tokens',
+                                               0), least))
     if distinct < mins.get('distinct', 2):
         inconclusive.append('only %d distinct non-trivial cases (< %d)'
                             % (distinct, mins.get('distinct', 2)))
